@@ -654,6 +654,7 @@ class Pipeline:
         # geometric expressions are read from the function as written when possible: helper
         # calls inside them are evaluated denotationally by GeoInterp, which is more precise
         # than the statement-level inlining of the view
+        self._view_grid_def = w.expand(d[1], self.ren)
         raw = walk_function(f.node)
         rd = raw.sole_binding(self.grid_name)
         rr = [e for e in raw.events if e.kind == 'return' and e.value is not None]
@@ -693,6 +694,12 @@ class Pipeline:
             r = self._decompose(e2)
             if r is not None:
                 self.grid_def = e2
+        if r is None:
+            # third reading: the slice-and-rotate step was moved into a module-level helper
+            # (`_pov_grid(state, area)`), which the view reads through
+            r = self._decompose(self._view_grid_def)
+            if r is not None:
+                self.grid_def = self._view_grid_def
         if r is None:
             raise AnalysisError(
                 f'from_visibility: observation grid `{src(e)[:100]}` is not '
